@@ -400,10 +400,12 @@ class RaggedArray(IndexableArray, np.lib.mixins.NDArrayOperatorsMixin):
                     new_dtype = np.uint64
                 weights = weights.astype(new_dtype)
 
+            if np.issubdtype(new_dtype, np.integer):
+                # bincount accumulates its weights in float64: exact integer sums need an integer accumulator
+                result = np.zeros(np.max(self._shape.lengths), dtype=new_dtype)
+                np.add.at(result, column_indexes, weights)
+                return result
             return np.bincount(column_indexes, weights=weights, minlength=np.max(self.lengths))
-            result = np.zeros(np.max(self._shape.lengths), dtype=new_dtype)
-            np.add.at(result, column_indexes, self.ravel())
-            return result
 
         return np.add.reduce(self, axis=-1)
 
